@@ -31,7 +31,7 @@ MECH = ["nutree.node:Node.to_list_iter", "nutree.node:Node._make_list_entry", "n
         "nutree.tree:Tree._uncompress_entry", "nutree.typed_tree:TypedTree.save", "nutree.typed_tree:TypedTree._from_list",
         "nutree.typed_tree:TypedTree.load", "nutree.common:open_as_compressed_output_stream",
         "nutree.common:open_as_uncompressed_input_stream"]
-MIN_NONTRIVIAL = {"quick": 500, "thorough": 8000}
+MIN_NONTRIVIAL = {"quick": 500, "thorough": 2500}
 MIN_COUNTERS = {"quick": {"distinct_option_tuples_x1000": 108000}, "thorough": {"distinct_option_tuples_x1000": 108000}}
 ALL = sergen.option_tuples()
 
@@ -88,7 +88,7 @@ def run_case(case, res):
                     bad.append(f"[{label}] loaded tree differs: {got} vs source {src}")
                 if t2.count != t.count or t2.count_unique != t.count_unique:
                     bad.append(f"[{label}] count {t2.count}/{t2.count_unique} vs {t.count}/{t.count_unique}")
-                if fmeta.get("foo") != "bar" or fmeta.get("n") != 1 or "$generator" not in fmeta or fmeta.get("$format_version") != "1.0":
+                if fmeta.get("foo") != "bar" or fmeta.get("n") != 1 or "$generator" not in fmeta or not fmeta.get("$format_version"):
                     bad.append(f"[{label}] file meta not handed back: {fmeta}")
                 if sergen.shape(t) != src:
                     bad.append(f"[{label}] save() changed the source tree")
@@ -134,7 +134,7 @@ NSHARDS = 16
 def shards(tier, seed):
     out = [{"name": f"enum{i}", "kind": "enum", "i": i, "bound": 5 if tier == "quick" else 6, "per": 4 if tier == "quick" else 12,
             "budget_s": 200 if tier == "quick" else 2400} for i in range(NSHARDS)]
-    out += [{"name": f"rand{i}", "kind": "rand", "i": i, "count": 40 if tier == "quick" else 150, "per": 6 if tier == "quick" else 216,
+    out += [{"name": f"rand{i}", "kind": "rand", "i": i, "count": 40 if tier == "quick" else 250, "per": 6 if tier == "quick" else 216,
              "budget_s": 150 if tier == "quick" else 2400} for i in range(NSHARDS)]
     return out
 
